@@ -76,6 +76,18 @@ CLAIMED = {
     text="Proof on the same connection model, socket callbacks installed: on_socket_open/close strictly alternate with the same socket object on every error path; register/unregister-write alternate and lie inside that socket's open/close; whenever an operation returns with an open socket and unsent data a write registration is outstanding (external-loop mode). For all operation lists and nested scripts except reconnect() from the socket teardown callbacks (open finding F-C16a; full statements refuted by witness).",
     ref="4.16", technique="Coq proof: alternation/nesting invariants over all operation lists with nested callback scripts; extracted checkers; differential execution",
     note="As C10. The no-lost-wake-up clause in direct-write mode is covered by the correspondence only (the registration flag is internal there)."),
+ "C06": dict(
+    text="Proof: model of _packet_write/_packet_queue/loop_write over arbitrary send schedules (accept any k incl. 0, would-block, OSError, ValueError at any point) and arbitrary interleavings of enqueue and write operations, unbounded sizes: the bytes accepted by the transport ++ the unsent remainder = the concatenation of the queued packets in queue order (CONNECT first) - nothing lost, duplicated or reordered; nothing is offered before CONNECT is queued; a QoS 0 publish is reported (on_publish, published) exactly once and only when its last byte was accepted; unsent data implies want_write() and a requested write registration; the write loop terminates. The same statements over WebSockets for the de-framed payload of the raw bytes (generic over a transport specification, instantiated for the raw socket and for _send_impl), and every completed frame is well-formed (FIN, opcode 2, mask bit, 4-byte key, minimal length form). Plus, on the session model with the output queue, the queue is FIFO for arbitrary histories.",
+    ref="4.6", technique="Coq proof: stream invariant over all send schedules and enqueue/write interleavings, generic in the transport; differential execution with exhaustive small send schedules on the real client and the real _WebsocketWrapper",
+    note="Trusted: Coq kernel, extraction+driver, harness (os.urandom proxied so the model gets the same mask keys; only _do_handshake overridden). Hypotheses: at most one CONNECT per connection; fewer than 2^63 bytes per WebSocket connection. Tie by correspondence only."),
+ "C08": dict(
+    text="Proof: timed model (integer virtual time; every comparison in the code is now - t >= K) of _check_keepalive/loop_misc/_send_pingreq/_handle_pingresp and the timestamp updates, for all K > 0, d >= 0 and all op lists serviced within d: while connected now - t_last_tx <= K + d (strictly less); an unanswered PINGREQ leads within K + d to a closed socket, exactly one on_disconnect(KEEPALIVE), a non-zero loop result and is_connected() false; every keepalive close is justified by an unanswered PINGREQ/CONNECT older than K (no close from silence, traffic or gaps alone); with answers arriving by K - d and no inbound backlog carried across a clock advance the client never closes on its own; K = 0: never pings, never times out. The two timeout tests are cut from the source on every run and bridged. Literal 'answered within K' clause refuted by a benign witness (tolerance <= d); open finding F-C08a (backlog) excluded explicitly.",
+    ref="4.8", technique="Coq proof: timed invariants closed by lia over all op lists; timeout conditions translated from the source each run; differential execution under a virtual clock",
+    note="Trusted: Coq kernel, py2v translator, extraction+driver, harness with virtual clock (integer advances so float comparison is exact). disconnect() states and the WebSocket zero-length-write refresh are not modelled."),
+ "C09": dict(
+    text="Proof: small-step model of loop_forever (first-connection loop with retry_first_connection, inner loop, should_exit, _reconnect_wait with early exit, reconnect with OSError handling, CONNACK reset, downgrade retry) driven by an arbitrary script of attempt outcomes and an application action at any callback or sleep chunk: the j-th wait since the last accepted CONNACK chooses min(min*2^j, max), never below min; loop_forever ends only because the script ended, the application acted, reconnect_on_failure is off, or with the documented OSError of a refused first attempt without retry_first; after disconnect()/stop or the first loss with reconnect_on_failure off no further attempt is made and the machine is Done within 8*|script|+9 steps. The delay update is generated from the source and bridged. NOT proved in general: the literal gap statement (failure -> exactly one full wait -> retry; downgrade retry immediate and uncounted) - it is a Definition, machine-checked by vm_compute on all scripts up to length 5 x 4 (min,max) x retry_first, and compared on the real loop_forever in every run.",
+    ref="4.9", technique="Coq proof: closed form of the delay sequence, finality and termination over all attempt scripts; delay update translated from the source; the real loop_forever run under a virtual clock and scripted socket factory",
+    note="Trusted: Coq kernel, py2v translator, extraction+driver, harness (time.sleep/select/time_func virtual). _reconnect_wait's sleep loop is summarised in one-second chunks; loop_forever's control flow is hand-modelled and tied by correspondence."),
 }
 PENDING = {}
 for i in range(1, 21):
